@@ -1,2 +1,142 @@
-/-! placeholder driver (property C16 not built yet) -/
-def main : IO Unit := IO.println "bad-op"
+import LlgoVerif.Util
+import LlgoVerif.Model.Embed
+/-! Line-protocol driver for C16 (model of `internal/goembed`).  One request per line, one answer per line.
+    `H` = hex of bytes, `-` = empty.
+
+    * `resolve C TREE H…`   `C` = `0` (code as it stands) | `1` (with fixes/C16-1.diff); patterns follow.
+      `TREE` = `-` (empty directory) or comma-separated tokens in prefix order:
+      `f:NAME:DATA` file, `d:NAME` … `e` directory, `l:NAME` + one node (what the link resolves to; its own
+      name is ignored), `x:NAME` dangling link, `i:NAME` irregular file.
+      → `ok NAME=DATA,NAME=DATA…` | `err` | `unsupported` (a name outside the `unicode.IsLetter` table)
+    * `match PAT NAME` → `true` | `false` | `err`          (`path.Match`)
+    * `badname NAME` → `true` | `false` | `unsupported`     (`IsBadName`)
+    * `validpat PAT` → `V S` two flags `t`/`f`: `ValidPattern`, `path.Match(pat, "")` has no error
+    * `split ARGS` → `ok H H…` | `ok .` | `err`             (`SplitArgs`)
+    * `parsedir TEXT` → `nodirective` | `err` | `unsupported` | `ok H H…` | `ok .`   (`ParsePatterns` of one comment)
+    * `fsentries NAME=DATA,…` → `ok NAME=DATA,…` | `unsupported` (a name that is not a clean relative path)
+    * `isletter N` → `true` | `false` | `outside`
+-/
+open LlgoVerif LlgoVerif.Util LlgoVerif.Embed
+
+def unhexStr (h : String) : Option Str := (unhex h).map fun bs => bs.map (·.toNat)
+def hexStr (s : Str) : String := hex (s.map UInt8.ofNat)
+
+def hexList (l : List Str) : String := if l.isEmpty then "." else " ".intercalate (l.map hexStr)
+
+def hexFiles (fs : Seen) : String :=
+  if fs.isEmpty then "." else ",".intercalate (fs.map fun f => hexStr f.1 ++ "=" ++ hexStr f.2)
+
+/-- parse one node starting at the head token: `(name, node, remaining tokens)` -/
+partial def parseNode : List String → Option (Str × Node × List String)
+  | [] => none
+  | tok :: rest =>
+    match tok.splitOn ":" with
+    | ["f", nm, dat] => do
+      let nm ← unhexStr nm
+      let dat ← unhexStr dat
+      pure (nm, .file dat, rest)
+    | ["d", nm] => do
+      let nm ← unhexStr nm
+      let (es, rest') ← parseEnts rest
+      pure (nm, .dir es, rest')
+    | ["l", nm] => do
+      let nm ← unhexStr nm
+      let (_, target, rest') ← parseNode rest
+      pure (nm, .link target, rest')
+    | ["x", nm] => do
+      let nm ← unhexStr nm
+      pure (nm, .dangling, rest)
+    | ["i", nm] => do
+      let nm ← unhexStr nm
+      pure (nm, .irregular, rest)
+    | _ => none
+where
+  /-- entries up to the closing `e` (or the end of input at top level) -/
+  parseEnts : List String → Option (Ents × List String)
+    | [] => some (.nil, [])
+    | "e" :: rest => some (.nil, rest)
+    | toks => do
+      let (nm, n, rest) ← parseNode toks
+      let (es, rest') ← parseEnts rest
+      pure (.cons nm n es, rest')
+
+def parseTree (s : String) : Option Node :=
+  if s = "-" then some (.dir .nil) else
+  match parseNode.parseEnts (s.splitOn ",") with
+  | some (es, []) => some (.dir es)
+  | _ => none
+
+def supportedName (s : Str) : Bool := (runes s).all inLetterDomain
+
+mutual
+  partial def nodeSupported : Node → Bool
+    | .dir es => entsSupported es
+    | .link t => nodeSupported t
+    | _ => true
+  partial def entsSupported : Ents → Bool
+    | .nil => true
+    | .cons nm n rest => supportedName nm && nodeSupported n && entsSupported rest
+end
+
+def parseFiles (s : String) : Option Seen :=
+  if s = "." then some [] else
+  (s.splitOn ",").mapM fun kv =>
+    match kv.splitOn "=" with
+    | [k, v] => do pure ((← unhexStr k), (← unhexStr v))
+    | _ => none
+
+def flag (b : Bool) : String := if b then "t" else "f"
+
+def handle (line : String) : String :=
+  match fields line with
+  | "resolve" :: c :: tree :: pats =>
+    match parseTree tree, pats.mapM unhexStr with
+    | some root, some ps =>
+      if !nodeSupported root then "unsupported" else
+      match resolve ⟨c = "1"⟩ root ps with
+      | .ok fs => "ok " ++ hexFiles fs
+      | .error _ => "err"
+    | _, _ => "bad-op"
+  | ["match", p, n] =>
+    match unhexStr p, unhexStr n with
+    | some p, some n =>
+      match pathMatch p n with
+      | .ok b => toString b
+      | .error _ => "err"
+    | _, _ => "bad-op"
+  | ["badname", n] =>
+    match unhexStr n with
+    | some n => if !supportedName n then "unsupported" else toString (isBadName n)
+    | none => "bad-op"
+  | ["validpat", p] =>
+    match unhexStr p with
+    | some p => flag (validPattern p) ++ " " ++ flag (globSyntaxOK p)
+    | none => "bad-op"
+  | ["split", a] =>
+    match unhexStr a with
+    | some a =>
+      match splitArgs a with
+      | .ok l => "ok " ++ hexList l
+      | .error _ => "err"
+    | none => "bad-op"
+  | ["parsedir", t] =>
+    match unhexStr t with
+    | some t =>
+      match parseLine t with
+      | .noDirective => "nodirective"
+      | .err => "err"
+      | .unsupported => "unsupported"
+      | .pats ps => "ok " ++ hexList ps
+    | none => "bad-op"
+  | ["fsentries", fs] =>
+    match parseFiles fs with
+    | some files =>
+      if files.all fun f => cleanRel f.1 then "ok " ++ hexFiles (buildFSEntries files) else "unsupported"
+    | none => "bad-op"
+  | ["isletter", n] =>
+    match n.toNat? with
+    | some r => if inLetterDomain r then toString (isLetter r) else "outside"
+    | none => "bad-op"
+  | _ => "bad-op"
+
+def main : IO Unit := lineLoop handle
